@@ -121,7 +121,7 @@ N = 4
 Y = [1, 0, 1, 0]
 YP = [1, 1, 0, 0]
 SF = ["a", "a", "b", "b"]
-CF = ["u", "v", "u", "u"]
+CF = ["u,x", "v\\y", "u,x", "u,x"]  # control labels containing the merge separator and the escape character
 FEAT = [0, 1, 2, 1]
 
 
